@@ -342,10 +342,18 @@ def _r1(ctx, m):
     incs = [f for f in fl.facts if f.kind == "augassign" and f.target == counter] if counter is not None else []
     if counter is not None:
         ini = fl.assigns.get(counter, [])
-        ctx.check(len(ini) == 1 and ini[0][0] == ("const", 0) and not ini[0][1] and not ini[0][2], "R1", "nnz-init", (FILE, ini[0][3] if ini else m.func.lineno),
-                  f"`{counter}` is initialised once to 0 before the loops", expected=f"{counter} = 0", found="; ".join(show(x[0]) for x in ini))
-        ctx.check(len(incs) == 1 and incs[0].op == "Add" and incs[0].value == ("const", 1), "R1", "nnz-increment", (FILE, incs[0].line if incs else m.func.lineno),
-                  f"`{counter}` is only ever incremented by 1, at one site", found="; ".join(f"{f.op} {show(f.value)} @{f.line}" for f in incs))
+        if len(ini) == 1 and simp(ini[0][0])[0] != "const":
+            ctx.unrec("R1", "nnz-init", (FILE, ini[0][3]), f"the initial value of `{counter}` is not a literal: {show(simp(ini[0][0]))[:80]}")
+        else:
+            ctx.check(len(ini) == 1 and simp(ini[0][0]) == ("const", 0) and not ini[0][1] and not ini[0][2], "R1", "nnz-init", (FILE, ini[0][3] if ini else m.func.lineno),
+                      f"`{counter}` is initialised once to 0 before the loops", expected=f"{counter} = 0", found="; ".join(show(x[0]) for x in ini))
+        if len(incs) == 1 and (simp(incs[0].value)[0] == "const" or incs[0].op != "Add"):
+            ctx.check(incs[0].op == "Add" and simp(incs[0].value) == ("const", 1), "R1", "nnz-increment", (FILE, incs[0].line),
+                      f"`{counter}` is only ever incremented by 1, at one site", found="; ".join(f"{f.op} {show(f.value)} @{f.line}" for f in incs))
+        else:
+            # several increment sites (arms, stages) or a step computed elsewhere (`nnz += len(found)`): another spelling of the count
+            ctx.unrec("R1", "nnz-increment", (FILE, incs[0].line if incs else m.func.lineno),
+                      f"`{counter}` is advanced in a way that is not one `+= 1` next to the appends: " + "; ".join(f"{f.op} {show(f.value)[:40]} @{f.line}" for f in incs))
     else:
         own = measured in names.get("vals", []) + names.get("cols", [])
         ctx.check(own, "R1", "nnz-by-length", W, f"the number of stored entries is read as len({measured}), the list that receives one element per stored entry",
@@ -434,9 +442,12 @@ def _r1(ctx, m):
         sl = seq[2]
         lo = {} if sl[1] == ("const", None) else _npoly(m, sl[1])
         ok = sl[3] == ("const", None) and sl[2] != ("const", None) and lo == _npoly(m, rowstart) and _npoly(m, sl[2]) == _npoly(m, ("binop", "Add", rowstart, _NEQ))
-        ctx.check(bool(ok), "R1", "col-loop", (FILE, colloop.line),
-                  f"col loop enumerates the row's slice jacrhs[row*n_eqns : (row+1)*n_eqns] (ascending, complete; position in the slice = column)",
-                  expected="enumerate(jacrhs[row*n_eqns : (row+1)*n_eqns])", found=show(it)[:120])
+        if ok or all(b_ == ("const", None) or m._known_arith(b_) for b_ in sl[1:4]):
+            ctx.check(bool(ok), "R1", "col-loop", (FILE, colloop.line),
+                      f"col loop enumerates the row's slice jacrhs[row*n_eqns : (row+1)*n_eqns] (ascending, complete; position in the slice = column)",
+                      expected="enumerate(jacrhs[row*n_eqns : (row+1)*n_eqns])", found=show(it)[:120])
+        else:
+            ctx.unrec("R1", "col-loop", (FILE, colloop.line), f"the bounds of the row's slice are not arithmetic over the row variable and n_eqns: {show(seq)[:120]}")
         colvar = ("idx", seq, colloop.id)
         entry = ("elem", seq, colloop.id)
     # (c) row pointer appended before the column loop, unguarded, once per row
@@ -451,6 +462,12 @@ def _r1(ctx, m):
     rows_init = [simp(f.value) for f in fl.facts if f.kind == "init" and f.target in names["rows"]]
     trailing = rows_init == [("list", (("const", 0),))] and len(inrow) == 1 and not tail and not others and not inrow[0].guards and inrow[0].seq > last_col_fact
     ok = trailing or (len(inrow) == 1 and not inrow[0].guards and inrow[0].seq < first_col_fact and not others)
+    rows_other = [f for f in fl.facts if f.target in names["rows"] and f.kind not in ("init", "append")]
+    rows_odd_init = [x for x in rows_init if x not in (("list", ()), ("list", (("const", 0),)))]
+    if (rows_other or rows_odd_init or len(rows_init) != 1) and not (ok and (trailing or (len(tail) == 1 and not tail[0].guards and tail[0].seq > last_loop_fact))):
+        ctx.unrec("R1", "rowptr", (FILE, rowloop.line), "the row-pointer list is also filled by other statements than one append per row and a final one ("
+                  + "; ".join(f"{f.kind}{':' + f.op if getattr(f, 'op', None) else ''}@{f.line}" for f in rows_other) + f"; initial value {[show(x)[:40] for x in rows_init]}): not understood")
+        return
     ctx.check(ok, "R1", "rowptr-before-columns", (FILE, inrow[0].line if inrow else rowloop.line),
               "each row appends the running count to the row pointers before its columns are visited, unconditionally",
               expected="rows.append(nnz) as first statement of the row loop",
@@ -487,8 +504,14 @@ def _r1(ctx, m):
         b_ = match(("cmp", (V("op"),), (V("e"), V("lit"))), g[0][0][0])
         if b_ and b_["lit"][0] == "const" and not any(x == m.JAC for x in walk_(b_["e"])):
             traced = False
+    simple = all(x == g[0] for x in g) and (not g[0] or (len(g[0]) == 1 and bool(match(("cmp", (V("op"),), (V("e"), V("lit"))), g[0][0][0]))
+                                                       and match(("cmp", (V("op"),), (V("e"), V("lit"))), g[0][0][0])["lit"][0] == "const"))
     if not traced:
         ctx.unrec("R1", "single-guard", (FILE, c.line), f"the stored entries are filtered by a test on `{show(g[0][0][0])[:100]}`, which is not traced to the Jacobian table {m.JACNAME}")
+    elif same_loops and not guard_ok and all(x == g[0] for x in g) and not simple:
+        # one shared filter, but not a single comparison with a literal (several conditions, a helper predicate): not understood
+        ctx.unrec("R1", "single-guard", (FILE, c.line), "the condition under which an entry is stored is not a single comparison of the entry with a literal: "
+                  + " & ".join(("" if p else "not ") + show(x)[:60] for x, p in g[0]))
     else:
         ctx.check(same_loops and guard_ok, "R1", "single-guard", (FILE, c.line),
                   "cols.append, vals.append and the increment sit together under the single guard `entry != sentinel`",
@@ -497,8 +520,13 @@ def _r1(ctx, m):
     if guard_ok:
         if form == "range":
             ok = _npoly(m, slot_idx) == _npoly(m, ("binop", "Add", rowstart, colvar))
-            ctx.check(ok, "R1", "entry-index", (FILE, c.line), "the tested entry is jacrhs[row*n_eqns + col] of the two loop variables",
-                      found=show(slot_idx)[:120])
+            rowvar0 = ("elem", simp(rowloop.iter), rowloop.id)
+            idx_known = all(x in (colvar, rowvar0) or x[0] in ("binop", "const", "unop") or m.is_n_eqns(x) or m._known_arith(x) for x in _atoms(simp(slot_idx), (colvar, rowvar0), m))
+            if ok or idx_known:
+                ctx.check(ok, "R1", "entry-index", (FILE, c.line), "the tested entry is jacrhs[row*n_eqns + col] of the two loop variables",
+                          found=show(slot_idx)[:120])
+            else:
+                ctx.unrec("R1", "entry-index", (FILE, c.line), f"the subscript of the tested entry is not arithmetic over the two loop variables and n_eqns: {show(slot_idx)[:120]}")
         else:
             ctx.ok("R1", "entry-index", (FILE, c.line), "the tested entry is the element the column loop enumerates: jacrhs[row*n_eqns + col]")
         cv = simp(c.value)
@@ -521,9 +549,10 @@ def _r1(ctx, m):
     allnames = set(sum(names.values(), []))
     extra = [f for f in fl.facts if f.target in allnames and f.kind not in ("init", "append")]
     grow = [f for f in extra if f.kind == "mutate" and f.op in ("extend", "__iadd__", "iadd")]
-    if extra and len(grow) == len(extra):
-        # further elements added in bulk: another spelling of filling the lists, not understood here
-        ctx.unrec("R1", "no-other-writer", (FILE, extra[0].line), "the CSR lists also grow by " + "; ".join(f"{f.op}@{f.line}" for f in extra) + ": not understood")
+    edits = [f for f in extra if f.kind in ("store", "augstore", "remove") or (f.kind == "mutate" and f.op in ("sort", "reverse", "remove", "pop", "insert", "clear"))]
+    if extra and not edits:
+        # further elements added in bulk / the list re-bound: another spelling of filling the lists, not understood here
+        ctx.unrec("R1", "no-other-writer", (FILE, extra[0].line), "the CSR lists are also touched by " + "; ".join(f"{f.kind}{':' + str(f.op) if getattr(f, 'op', None) else ''}@{f.line}" for f in extra) + ": not understood")
     else:
         ctx.check(not extra, "R1", "no-other-writer", (FILE, extra[0].line if extra else m.func.lineno),
                   "the CSR lists are only initialised empty and appended to", found="; ".join(f"{f.kind}@{f.line}" for f in extra))
@@ -696,8 +725,12 @@ def _r2_r5(ctx, m, tsent=()):
         sent[("CSR filter", FILE, m.func.lineno)] = ctx.stats["csr_sentinel"]
     sent.update(tsent)       # the literal the dense / odeint templates compare an entry with (c02.dense_layout, any spelling of the test)
     # pattern writer
-    fn = pkg.method("TemplateLoader", "render")
+    pkg.method("TemplateLoader", "render")
     ctx.saw(FILE, "TemplateLoader.render")
+    # the writer extracted into a helper method / a method of the Jacobian record (`self._write_pattern(ode.jac, path)`,
+    # `ode.jac.pattern_text()`) is still these statements: the helpers are put back first
+    from .c02 import RENDER_KEEP
+    fn = pkg.expanded("TemplateLoader", "render", keep=RENDER_KEEP)
     # a helper method that returns the text / the rows / the marks is read as the value it returns
     from ..odemodel import pure_helper_resolver, inline_constants
     import copy as _copy
@@ -794,9 +827,12 @@ def _pattern_writer(ctx, rf, fn, sent):
     # marks computed for the whole table first and sliced afterwards: [f(x) for x in T][a:b] = [f(x) for x in T[a:b]]
     if src[0] == "comp":
         im = as_map(src)
-        if im is None or im[3]:
+        if im is None:
+            ctx.unrec("R5", "pattern-marks", (FILE, rline), f"mark list not understood: {show(src)[:100]}")
+            return
+        if im[3]:
             ctx.bad("R5", "pattern-marks", (FILE, rline), "the marks are computed from a FILTERED view of the Jacobian entries: positions in the pattern no longer "
-                    "correspond to positions in the table" if im is not None else f"mark list not understood: {show(src)[:100]}", found=show(src)[:140])
+                    "correspond to positions in the table", found=show(src)[:140])
             return
         cbody = simp(subst_(cbody, {cbv: im[1]}))
         cbv, src = im[0], simp(im[2])
@@ -817,6 +853,11 @@ def _pattern_writer(ctx, rf, fn, sent):
             form = True
         elif (a_, b_) in ((1, 0), ("1", "0")):
             form = False
+    elif mark[0] == "call" and mark[1] == ("global", "int") and len(mark[2]) == 1 and not mark[3] and mark[2][0][0] == "cmp" and len(mark[2][0][1]) == 1 \
+            and mark[2][0][1][0] in ("Eq", "NotEq") and mark[2][0][2][0] == cbv and mark[2][0][2][1][0] == "const":
+        # the truth value of the test as the mark: int(entry != sentinel) is 0 for a sentinel entry and 1 otherwise
+        lit = mark[2][0][2][1][1]
+        form = mark[2][0][1][0] == "NotEq"
     sent[("pattern writer", FILE, rline)] = lit
     if form is None or not src_ok:
         ctx.unrec("R5", "pattern-marks", (FILE, rline), f"mark of an entry not understood: {show(cbody)[:100]} over {show(src)[:60]}")
@@ -830,8 +871,13 @@ def _pattern_writer(ctx, rf, fn, sent):
     want_lo = poly(("binop", "Mult", rvar, n))
     want_hi = poly(("binop", "Add", ("binop", "Mult", rvar, n), n))
     ok = sl[3] == ("const", None) and lo == want_lo and hi == want_hi and show(n).endswith(".jac.nrow")
-    ctx.check(ok, "R5", "pattern-rows", (FILE, rline),
-              "row r of the file is pattern[r*nrow:(r+1)*nrow] for r in range(nrow), nrow = ode.jac.nrow", found=show(cbase)[:140])
+    n_known = n[0] == "attr" and ".jac." in show(n)[-12:]
+    atoms_known = all(a_ in (rvar, n) for k_ in list(lo) + list(hi or {}) for a_ in k_)
+    if ok or (n_known and atoms_known and sl[3] == ("const", None)):
+        ctx.check(ok, "R5", "pattern-rows", (FILE, rline),
+                  "row r of the file is pattern[r*nrow:(r+1)*nrow] for r in range(nrow), nrow = ode.jac.nrow", found=show(cbase)[:140])
+    else:
+        ctx.unrec("R5", "pattern-rows", (FILE, rline), f"the slice a row is cut by is not arithmetic over the row number and ode.jac.nrow: {show(cbase)[:140]} for rows in range({show(n)[:60]})")
     # nothing edits the pattern after it was derived from the entries: no in-place edit of a local of this branch
     local = {nm for nm, lst in rf.assigns.items() for val, loops, guards, line, seq in lst if [(simp(g), p) for g, p in guards][:len(wg)] == wg and wg}
     muts = [f for f in rf.facts if f.target in (local | chain) and f.kind in ("store", "augstore", "mutate", "remove") ]
@@ -1045,10 +1091,8 @@ def _r4_reactions(ctx):
                   "the call _assign_rates('k', <list>, ..) was not found / its list is not traced to a field of netinfo")
     # (b) the field receives network.reactions (the property that supplies the dummy reaction of an empty network)
     import ast as _ast
-    for file, cls, meth in ((FILE, "TemplateLoader", "render"), ("naunet/patches.py", "EnzoPatch", "render")):
-        fn = pkg.classes[cls].methods.get(meth) if cls in pkg.classes else None
-        if fn is None:
-            continue
+    from .c02 import render_functions
+    for file, cls, meth, fn in render_functions(pkg):
         for c in _ast.walk(fn):
             if isinstance(c, _ast.Call) and _ast.unparse(c.func) == "NetworkInfo" and not any(isinstance(a_, _ast.Starred) for a_ in c.args):
                 from .c02 import dataclass_fields
@@ -1057,15 +1101,28 @@ def _r4_reactions(ctx):
                 arg = bound.get("reactions")
                 if arg is None:
                     continue
-                if isinstance(arg, _ast.Name):
-                    # a local bound once stands for the expression it was bound to
-                    once = [st.value for st in _ast.walk(fn) if isinstance(st, _ast.Assign) and len(st.targets) == 1 and isinstance(st.targets[0], _ast.Name)
-                            and st.targets[0].id == arg.id]
-                    arg = once[0] if len(once) == 1 else arg
+                # a local bound once stands for the expression it was bound to (also inside the `or` fall-back)
+                once = {}
+                for st in _ast.walk(fn):
+                    if isinstance(st, _ast.Assign) and len(st.targets) == 1 and isinstance(st.targets[0], _ast.Name):
+                        once.setdefault(st.targets[0].id, []).append(st.value)
+
+                def deref(e, depth=0):
+                    while isinstance(e, _ast.Name) and len(once.get(e.id, [])) == 1 and depth < 4:
+                        e, depth = once[e.id][0], depth + 1
+                    return e
+                arg = deref(arg)
                 src = " ".join(_ast.unparse(arg).split())
-                good = src == "network.reactions" or src.startswith("network.reactions or [Reaction(")
-                if not good and not src.startswith("network."):
-                    # not an attribute of the network at all: which list this is cannot be told from here
+                good = src == "network.reactions"
+                wrong = False
+                if isinstance(arg, _ast.BoolOp) and isinstance(arg.op, _ast.Or) and len(arg.values) == 2 and _ast.unparse(arg.values[0]) == "network.reactions":
+                    # `network.reactions or [<one reaction>]`: the (never used) fall-back for an empty list still counts one reaction
+                    fb = deref(arg.values[1])
+                    good = isinstance(fb, (_ast.List, _ast.Tuple)) and len(fb.elts) == 1 and not isinstance(fb.elts[0], _ast.Starred)
+                elif isinstance(arg, _ast.Attribute) and isinstance(arg.value, _ast.Name) and arg.value.id == "network" and arg.attr != "reactions":
+                    wrong = True        # another list of the network (reaction_list: without the dummy reaction of the empty network)
+                if not good and not wrong:
+                    # not an attribute of the network: which list this is cannot be told from here
                     ctx.unrec("R4", f"{cls}.{meth}:NetworkInfo.reactions", (file, c.lineno), f"NetworkInfo.reactions receives `{src[:80]}`: not read as an attribute of the network")
                     continue
                 ctx.check(good, "R4", f"{cls}.{meth}:NetworkInfo.reactions", (file, c.lineno),
@@ -1104,8 +1161,9 @@ def _r4(ctx):
         # a value computed some other way (macro, helper filter) is not understood
         known = got is not None and all(p_.split(".")[0] in ("network", "ode") for p_ in _paths_in(got[0])) and \
             not any(isinstance(x, tuple) and x and (x[0] in ("call", "test") or (x[0] == "filter" and x[1] not in ("length", "int"))) for x in _walk_j(got[0]))
-        if got is None or got[0] == w or known:
-            ctx.check(got is not None and got[0] == w, "R4", f"macro:{name}", (MACROS, got[1] if got else 0),
+        same = got is not None and (got[0] == w or (name == "NNZ" and got[0] in _NNZ_BY_LENGTH))
+        if got is None or same or known:
+            ctx.check(same, "R4", f"macro:{name}", (MACROS, got[1] if got else 0),
                       f"{name} is defined as {J.show(w)} -- the length of the sequence the generator enumerates",
                       expected=J.show(w), found=J.show(got[0]) if got else "undefined")
         else:
@@ -1143,12 +1201,16 @@ def _r4(ctx):
     seen = set()
     for rel, cfg, label in targets:
         ctx.saw(rel)
-        sk = Skel(J.flatten(tree, rel, cfg))
+        # (a `{% set %}` variable bound to a string literal prints that text: `{% set shape = "NEQUATIONS, NEQUATIONS" %}`)
+        sk = Skel(J.propagate_sets(J.flatten(tree, rel, cfg)))
         code = sk.plain(sk.clean)
         for mm in re.finditer(r"\b(?:realtype|double|int|sunindextype|float)\s+(\w+)\s*\[([^\]]*)\]", code):
             name, size = mm.group(1), _norm(mm.group(2))
             if name not in FAMILY or not size:
                 continue
+            if size != FAMILY[name] and not _size_known(size):
+                f0 = sk.func_of_offset(mm.start())
+                size = _strip_casts(_subst_consts(size, _cpp_consts(code[(f0.start if f0 else _block_start(code, mm.start())):mm.start()])))
             ndecl += 1
             key = f"{label}:{rel.split('/')[-1]}:decl {name}[{size}]"
             if key in seen:
@@ -1171,10 +1233,14 @@ def _r4(ctx):
                 if fn == "SUNDenseMatrix":
                     w = ["NELEMENTS", "NELEMENTS"] if fname.endswith("Renorm") else ["NEQUATIONS", "NEQUATIONS"]
                 nctor += 1
-                got = [_norm(a) for a in args[:len(w)]]
+                # a size first bound to a constant local of the function (`const sunindextype neq = NEQUATIONS;`) is that size; casts
+                # do not change it
+                consts = _cpp_consts(code[(f.start if f else _block_start(code, mm.start())):mm.start()])
+                got = [_strip_casts(_subst_consts(_norm(a), consts)) for a in args[:len(w)]]
+                w = [x if x is None else _strip_casts(x) for x in w]
                 good = all(x is None or x == g for x, g in zip(w, got)) and len(got) == len(w)
                 key = f"{label}:{fname}:{fn}"
-                if good or all(_size_known(g_.replace("(sunindextype)", "").replace("n_system_per_stream", "1")) or g_ in ("CSR_MAT", "CSC_MAT") for x_, g_ in zip(w, got) if x_ is not None):
+                if good or all(_size_known(g_.replace("n_system_per_stream", "1")) or g_ in ("CSR_MAT", "CSC_MAT") for x_, g_ in zip(w, got) if x_ is not None):
                     ctx.check(good, "R4", key, (rel, code.count("\n", 0, mm.start()) + 1),
                               f"{fn} in {fname} is sized by the macros of its family", expected=str(w), found=str(got))
                 else:
@@ -1194,6 +1260,8 @@ def _r4(ctx):
     ctx.floor("R4", "kernel offsets", noff, 3)
 
 
+# the number of stored entries read as the length of the value / column list (one element per stored entry: R1)
+_NNZ_BY_LENGTH = tuple(("filter", "length", ("attr", ("attr", ("name", "ode"), "jac"), f_), (), ()) for f_ in ("vals", "cols"))
 _SIZE_MACROS = {"NREACTIONS", "NHEATPROCS", "NCOOLPROCS", "NEQUATIONS", "NNZ", "NSPECIES", "NELEMENTS", "THERMAL"}
 
 
@@ -1201,6 +1269,47 @@ def _size_known(size: str) -> bool:
     """the (whitespace-free) size expression is integer arithmetic over the size macros: a value that differs from the family's macro
     is then a different size, not an unknown one"""
     return bool(re.fullmatch(r"[\w()+\-*/]+", size)) and set(re.findall(r"[A-Za-z_]\w*", size)) <= _SIZE_MACROS
+
+
+def _cpp_consts(code: str) -> dict:
+    """{name: whitespace-free initialiser} of the `const` / `constexpr` locals declared in `code` whose initialiser is arithmetic over the
+    size macros (and earlier such constants)"""
+    out = {}
+    for mm in re.finditer(r"\b(?:static\s+)?(?:const|constexpr)\s+[\w:<>\s]+?[\s*&]\s*(\w+)\s*(?:=\s*([^;{}]+)|\{([^;{}]+)\})\s*;", code):
+        val = _strip_casts(_subst_consts(_norm(mm.group(2) or mm.group(3)), out))
+        if _size_known(val):
+            out[mm.group(1)] = val
+    return out
+
+
+def _block_start(code: str, off: int) -> int:
+    """offset of the `{` that opens the innermost block around `off` (0 when there is none)"""
+    depth = 0
+    for i in range(off - 1, -1, -1):
+        if code[i] == "}":
+            depth += 1
+        elif code[i] == "{":
+            if depth == 0:
+                return i
+            depth -= 1
+    return 0
+
+
+def _subst_consts(expr: str, consts: dict) -> str:
+    if not consts:
+        return expr
+    return re.sub(r"[A-Za-z_]\w*", lambda m_: (consts[m_.group(0)] if re.fullmatch(r"\w+", consts[m_.group(0)]) else "(" + consts[m_.group(0)] + ")")
+                  if m_.group(0) in consts else m_.group(0), expr)
+
+
+def _strip_casts(expr: str) -> str:
+    """the (whitespace-free) expression without C / C++ casts to an integer type"""
+    expr = re.sub(r"\((?:sunindextype|int|long|size_t|std::size_t|unsigned|unsignedint|unsignedlong)\)", "", expr)
+    prev = None
+    while prev != expr:
+        prev = expr
+        expr = re.sub(r"static_cast<[\w:\s]+>\(([^()]*)\)", r"\1", expr)
+    return expr
 
 
 def _split_args(code, i):
@@ -1226,6 +1335,8 @@ def _split_args(code, i):
 
 T = FILE
 MUTANTS = [
+    {'name': 'pattern-method-of-the-jacobian-record-marks-inverted', 'edits': [{'file': 'naunet/templateloader.py', 'old': '        vals: list[str]\n        rhs: list[str]\n\n', 'new': '        vals: list[str]\n        rhs: list[str]\n\n        def pattern_text(self) -> str:\n            n = self.nrow\n            marks = ["1" if e == "0.0" else "0" for e in self.rhs]\n            return "\\n".join(" ".join(marks[r * n : (r + 1) * n]) for r in range(n))\n\n', 'count': 1}, {'file': 'naunet/templateloader.py', 'old': '        if jac_pattern:\n            jacrhs = ode.jac.rhs\n            n_eqns = ode.jac.nrow\n\n            pattern = [0 if j == "0.0" else 1 for j in jacrhs]\n\n            rowpattern = []\n            for row in range(n_eqns):\n                rowdata = pattern[row * n_eqns : (row + 1) * n_eqns]\n                rowpattern.append(" ".join(str(e) for e in rowdata))\n\n            pattern = "\\n".join(rowpattern)\n\n            with open(path / "jac_pattern.dat", "w") as outf:\n                outf.write(pattern)\n', 'new': '        if not jac_pattern:\n            return\n        with open(path / "jac_pattern.dat", "w") as outf:\n            outf.write(ode.jac.pattern_text())\n'}], 'rules': ['R5']},
+    {'name': 'netinfo-built-in-a-module-function-from-reaction-list', 'edits': [{'file': 'naunet/templateloader.py', 'old': '\nclass TemplateLoader:\n', 'new': '\ndef _network_info(net):\n    dummy = [Reaction(reaction_type=ReactionType.DUMMY)]\n    return NetworkInfo(net.elements, net.species, net.reaction_list, net.heating, net.cooling, net.grains, net.shielding)\n\n\nclass TemplateLoader:\n'}, {'file': 'naunet/templateloader.py', 'old': '        info = NetworkInfo(\n            network.elements,\n            network.species,\n            network.reactions or [Reaction(reaction_type=ReactionType.DUMMY)],\n            network.heating,\n            network.cooling,\n            network.grains,\n            network.shielding,\n        )\n', 'new': '        info = _network_info(network)\n'}], 'rules': ['R4']},
     {"name": "rowwise-extend-slice-one-column-short", "file": T, "old": '        nnz = 0\n\n        for row in range(n_eqns):\n            spjacrptr.append(nnz)\n            for col in range(n_eqns):\n                elem = jacrhs[row * n_eqns + col]\n                if elem != "0.0":\n                    spjaccval.append(col)\n                    spjacdata.append(f"{elem}")\n                    nnz += 1\n        spjacrptr.append(nnz)\n',
      "new": '        for row in range(n_eqns):\n            spjacrptr.append(len(spjacdata))\n            rowelems = jacrhs[row * n_eqns : (row + 1) * n_eqns - 1]\n            spjaccval.extend(col for col, elem in enumerate(rowelems) if elem != "0.0")\n            spjacdata.extend(elem for _, elem in enumerate(rowelems) if elem != "0.0")\n        nnz = len(spjacdata)\n        spjacrptr.append(nnz)\n', "rules": ["R1"]},
     {"name": "rowwise-extend-values-selected-by-another-sentinel", "file": T, "old": '        nnz = 0\n\n        for row in range(n_eqns):\n            spjacrptr.append(nnz)\n            for col in range(n_eqns):\n                elem = jacrhs[row * n_eqns + col]\n                if elem != "0.0":\n                    spjaccval.append(col)\n                    spjacdata.append(f"{elem}")\n                    nnz += 1\n        spjacrptr.append(nnz)\n',
@@ -1272,6 +1383,16 @@ MUTANTS = [
     {"name": "nequations-macro", "file": MACROS, "old": "#define NEQUATIONS (NSPECIES + THERMAL)", "new": "#define NEQUATIONS (NSPECIES)", "rules": ["R4"]},
 ]
 BENIGN = [
+    {'name': 'pattern-helper-returns-text', 'edits': [{'file': 'naunet/templateloader.py', 'old': '    def render(\n        self,\n        proj_name', 'new': '    @staticmethod\n    def _pattern_text(jac):\n        n = jac.nrow\n        marks = ["0" if term == "0.0" else "1" for term in jac.rhs]\n        lines = [" ".join(marks[r * n : (r + 1) * n]) for r in range(n)]\n        return "\\n".join(lines)\n\n    def render(\n        self,\n        proj_name'}, {'file': 'naunet/templateloader.py', 'old': '        if jac_pattern:\n            jacrhs = ode.jac.rhs\n            n_eqns = ode.jac.nrow\n\n            pattern = [0 if j == "0.0" else 1 for j in jacrhs]\n\n            rowpattern = []\n            for row in range(n_eqns):\n                rowdata = pattern[row * n_eqns : (row + 1) * n_eqns]\n                rowpattern.append(" ".join(str(e) for e in rowdata))\n\n            pattern = "\\n".join(rowpattern)\n\n            with open(path / "jac_pattern.dat", "w") as outf:\n                outf.write(pattern)\n', 'new': '        if jac_pattern:\n            with open(path / "jac_pattern.dat", "w") as outf:\n                outf.write(self._pattern_text(ode.jac))\n'}]},
+    {'name': 'pattern-module-function-write-text', 'edits': [{'file': 'naunet/templateloader.py', 'old': '\n# define in this file to avoid circular import\n', 'new': '\ndef _jac_pattern_lines(rhs, nrow):\n    lines = []\n    for row in range(nrow):\n        rowterms = rhs[row * nrow : (row + 1) * nrow]\n        lines.append(" ".join("0" if t == "0.0" else "1" for t in rowterms))\n    return lines\n\n\n# define in this file to avoid circular import\n'}, {'file': 'naunet/templateloader.py', 'old': '        if jac_pattern:\n            jacrhs = ode.jac.rhs\n            n_eqns = ode.jac.nrow\n\n            pattern = [0 if j == "0.0" else 1 for j in jacrhs]\n\n            rowpattern = []\n            for row in range(n_eqns):\n                rowdata = pattern[row * n_eqns : (row + 1) * n_eqns]\n                rowpattern.append(" ".join(str(e) for e in rowdata))\n\n            pattern = "\\n".join(rowpattern)\n\n            with open(path / "jac_pattern.dat", "w") as outf:\n                outf.write(pattern)\n', 'new': '        if jac_pattern:\n            lines = _jac_pattern_lines(ode.jac.rhs, ode.jac.nrow)\n            with open(path / "jac_pattern.dat", "w") as outf:\n                outf.write("\\n".join(lines))\n'}]},
+    {'name': 'pattern-jac-local', 'file': 'naunet/templateloader.py', 'old': '        if jac_pattern:\n            jacrhs = ode.jac.rhs\n            n_eqns = ode.jac.nrow\n\n            pattern = [0 if j == "0.0" else 1 for j in jacrhs]\n\n            rowpattern = []\n            for row in range(n_eqns):\n                rowdata = pattern[row * n_eqns : (row + 1) * n_eqns]\n                rowpattern.append(" ".join(str(e) for e in rowdata))\n\n            pattern = "\\n".join(rowpattern)\n\n            with open(path / "jac_pattern.dat", "w") as outf:\n                outf.write(pattern)\n', 'new': '        if jac_pattern:\n            jac = ode.jac\n            nrow = jac.nrow\n            flags = [int(j != "0.0") for j in jac.rhs]\n            rowpattern = [" ".join(map(str, flags[row * nrow : (row + 1) * nrow])) for row in range(nrow)]\n            with open(path / "jac_pattern.dat", "w") as outf:\n                outf.write("\\n".join(rowpattern))\n'},
+    {'name': 'netinfo-module-function', 'edits': [{'file': 'naunet/templateloader.py', 'old': '\nclass TemplateLoader:\n', 'new': '\ndef _network_info(net):\n    dummy = [Reaction(reaction_type=ReactionType.DUMMY)]\n    return NetworkInfo(net.elements, net.species, net.reactions or dummy, net.heating, net.cooling, net.grains, net.shielding)\n\n\nclass TemplateLoader:\n'}, {'file': 'naunet/templateloader.py', 'old': '        info = NetworkInfo(\n            network.elements,\n            network.species,\n            network.reactions or [Reaction(reaction_type=ReactionType.DUMMY)],\n            network.heating,\n            network.cooling,\n            network.grains,\n            network.shielding,\n        )\n', 'new': '        info = _network_info(network)\n'}]},
+    {'name': 'macros-nnz-via-length', 'file': 'naunet/templates/base/cpp/include/naunet_macros.h.j2', 'old': '#define NNZ {{ ode.jac.nnz }}', 'new': '#define NNZ {{ ode.jac.vals | length }}'},
+    {'name': 'main-local-neq-constant', 'file': 'naunet/templates/cvode/src/naunet.cpp.j2', 'old': '    cv_y_  = N_VNewEmpty_Serial((sunindextype)NEQUATIONS, cv_sunctx_);\n    cv_a_  = SUNSparseMatrix(NEQUATIONS, NEQUATIONS, NNZ, CSR_MAT, cv_sunctx_);\n', 'new': '    const sunindextype neq = NEQUATIONS;\n    cv_y_  = N_VNewEmpty_Serial(neq, cv_sunctx_);\n    cv_a_  = SUNSparseMatrix(neq, neq, NNZ, CSR_MAT, cv_sunctx_);\n', 'count': 2},
+    {'name': 'main-jinja-macro-create-matrix', 'file': 'naunet/templates/cvode/src/naunet.cpp.j2', 'old': '    cv_a_  = SUNSparseMatrix(NEQUATIONS, NEQUATIONS, NNZ, CSR_MAT, cv_sunctx_);\n', 'new': '    {% set shape = "NEQUATIONS, NEQUATIONS" -%}\n    cv_a_  = SUNSparseMatrix({{ shape }}, NNZ, CSR_MAT, cv_sunctx_);\n', 'count': 2},
+    {'name': 'csr-final-append-iadd', 'file': 'naunet/templateloader.py', 'old': '                    nnz += 1\n        spjacrptr.append(nnz)\n', 'new': '                    nnz += 1\n        spjacrptr += [nnz]\n'},
+    {'name': 'nnz-plus-assign', 'file': 'naunet/templateloader.py', 'old': '                    nnz += 1\n', 'new': '                    nnz = nnz + 1\n'},
+    {'name': 'pattern-text-from-a-method-of-the-jacobian-record', 'edits': [{'file': 'naunet/templateloader.py', 'old': '        vals: list[str]\n        rhs: list[str]\n\n', 'new': '        vals: list[str]\n        rhs: list[str]\n\n        def pattern_text(self) -> str:\n            n = self.nrow\n            marks = ["0" if e == "0.0" else "1" for e in self.rhs]\n            return "\\n".join(" ".join(marks[r * n : (r + 1) * n]) for r in range(n))\n\n', 'count': 1}, {'file': 'naunet/templateloader.py', 'old': '        if jac_pattern:\n            jacrhs = ode.jac.rhs\n            n_eqns = ode.jac.nrow\n\n            pattern = [0 if j == "0.0" else 1 for j in jacrhs]\n\n            rowpattern = []\n            for row in range(n_eqns):\n                rowdata = pattern[row * n_eqns : (row + 1) * n_eqns]\n                rowpattern.append(" ".join(str(e) for e in rowdata))\n\n            pattern = "\\n".join(rowpattern)\n\n            with open(path / "jac_pattern.dat", "w") as outf:\n                outf.write(pattern)\n', 'new': '        if not jac_pattern:\n            return\n        with open(path / "jac_pattern.dat", "w") as outf:\n            outf.write(ode.jac.pattern_text())\n'}]},
     {"name": "csr-rowwise-extend-of-filtered-selections", "file": T, "old": '        nnz = 0\n\n        for row in range(n_eqns):\n            spjacrptr.append(nnz)\n            for col in range(n_eqns):\n                elem = jacrhs[row * n_eqns + col]\n                if elem != "0.0":\n                    spjaccval.append(col)\n                    spjacdata.append(f"{elem}")\n                    nnz += 1\n        spjacrptr.append(nnz)\n',
      "new": '        for row in range(n_eqns):\n            spjacrptr.append(len(spjacdata))\n            rowelems = jacrhs[row * n_eqns : (row + 1) * n_eqns]\n            spjaccval.extend(col for col, elem in enumerate(rowelems) if elem != "0.0")\n            spjacdata.extend(elem for _, elem in enumerate(rowelems) if elem != "0.0")\n        nnz = len(spjacdata)\n        spjacrptr.append(nnz)\n'},
     {"name": "initjac-colvals-printed-by-a-loop-with-separator", "file": JAC, "old": "        {{ ode.jac.cols | map('string') | join(\", \") | stmwrap(80, 8) }}\n",
